@@ -399,7 +399,7 @@ func runC13(o Opts) *Result {
 		if len(res.Samples) < 3 && n > 0 {
 			res.Samples = append(res.Samples, map[string]interface{}{"pairing": pair, "entries": n, "first_entries": fmt.Sprintf("%.300s", want)})
 		}
-		if len(res.Violations) >= 5 {
+		if res.full() {
 			break
 		}
 	}
@@ -518,7 +518,11 @@ func runC14(o Opts) *Result {
 		})
 		err := imp.Import(ctx, "http://exporter.local/debug/transfer-cache")
 		fail := func(sig, detail string) {
-			res.Violations = append(res.Violations, Violation{Property: "C14", Kind: "monitor", Sig: "xfer:http-" + sig, Detail: detail,
+			var also []string
+			if sig == "content" {
+				also = []string{"C13"} // "exactly the exporter's entries of the same name (as in C13)": the relay clause of C13 over HTTP
+			}
+			res.Violations = append(res.Violations, Violation{Property: "C14", Also: also, Kind: "monitor", Sig: "xfer:http-" + sig, Detail: detail,
 				Replay: map[string]interface{}{"engine": "xfer", "profile": "c14", "seed": o.Seed, "index": idx, "mode": mode,
 					"rerun": fmt.Sprintf("harness xfer -profile c14 -seed %d -only %d", o.Seed, idx)}})
 		}
@@ -586,7 +590,7 @@ func runC14(o Opts) *Result {
 		if len(res.Samples) < 2 {
 			res.Samples = append(res.Samples, map[string]interface{}{"exporter_caches": len(expC), "importer_caches": len(impC), "mode": mode})
 		}
-		if len(res.Violations) >= 5 {
+		if res.full() {
 			break
 		}
 	}
@@ -620,7 +624,7 @@ func runC14(o Opts) *Result {
 	if o.Tier == "thorough" {
 		nSeq = 400
 	}
-	for i := 0; i < nSeq && len(res.Violations) < 5; i++ {
+	for i := 0; i < nSeq && !res.full(); i++ {
 		// a registration sequence: types with repeats, split into GobRegister calls at random points
 		n := 1 + rng.Intn(7)
 		seq := make([]int, n)
